@@ -600,8 +600,7 @@ def lspStep (st : DState) (op : String) (f : List Text) : Option (DState × Stri
     some ({ st with srv := { st.srv with db := Cache.saveDistTags st.srv.db ⟨reg, name⟩ (pairs kv) st.srv.now } }, "ok")
   | "ml.now", [t] => some ({ st with srv := { st.srv with now := intOfText t } }, "ok")
   | "ml.init", regs =>
-    let (s1, msgs) := ConfigM.applyAnswer st.srv st.answer
-    let s2 := regs.foldl (fun s r => Server.startRefresh s r) s1
+    let (s2, msgs) := ConfigM.startUp st.srv st.answer regs
     some ({ st with srv := s2 }, outLine ("cfgreq" :: msgs.map msgStr) s2)
   | "ml.edit", uri :: npk :: rest =>
     let (pkgs, _) := parsePkgs (natOfText npk) rest
